@@ -250,7 +250,12 @@ func (t *basicTaskBase) ensureBasicTaskKilled() (err error) {
 	if t.Tci.ControlMode == controlmode.HOOK {
 		return nil
 	}
-	if t.taskCmd.ProcessState.Exited() {
+	if t.taskCmd.Process == nil {
+		// The process was never started, nothing to kill
+		return nil
+	}
+	if t.taskCmd.ProcessState != nil {
+		// ProcessState is only set once Wait has returned, i.e. the process has already terminated
 		return nil
 	}
 
